@@ -36,7 +36,7 @@ impl Outcome {
             "h": simcore::fingerprint(self.text.as_bytes()),
             "len": self.text.len(),
             "head": head,
-            "inj": self.text.contains("verif-injected-EIO"),
+            "inj": self.text.contains("verif-injected-EIO") || self.text.contains("verif-injected-panic"),
             "poisoned": self.text.contains("poisoned"),
         });
         if dump {
@@ -313,6 +313,9 @@ mod sim {
         nth: u64,
         seen: u64,
         fired: bool,
+        // for site == "panic": which call of which thread panics at its nth accessor yield point
+        thread: usize,
+        call: usize,
     }
 
     struct St {
@@ -430,6 +433,8 @@ mod sim {
         /// interleave also at the accessor yield points inside code generation
         fine: bool,
         fine_points: std::sync::atomic::AtomicU64,
+        /// some call is to be crashed at one of its accessor yield points
+        has_panics: bool,
     }
 
     impl Sched {
@@ -574,13 +579,34 @@ mod sim {
                 self.0.cv.notify_all();
             }
         }
-        fn yield_point(&self, _site: &'static str) {
-            if !self.0.fine {
-                return;
+        fn yield_point(&self, site: &'static str) -> bool {
+            if !self.0.fine && !self.0.has_panics {
+                return false;
             }
-            let Some(tid) = Sched::me() else { return };
-            self.0.fine_points.fetch_add(1, std::sync::atomic::Ordering::Relaxed);
-            self.0.park(tid, Th::Ready);
+            let Some(tid) = Sched::me() else { return false };
+            let mut fire = false;
+            if self.0.has_panics {
+                let call = CUR_CALL.with(|c| c.get());
+                let mut st = self.0.m.lock().unwrap_or_else(|q| q.into_inner());
+                for f in st.faults.iter_mut() {
+                    if f.site == "panic" && !f.fired && f.thread == tid && f.call == call {
+                        if f.seen == f.nth {
+                            f.fired = true;
+                            fire = true;
+                        }
+                        f.seen += 1;
+                    }
+                }
+                if fire {
+                    st.injected.push((tid, call, "panic".to_string(), site.to_string()));
+                    st.ev(tid, format!("INJECT-PANIC at {}", site));
+                }
+            }
+            if self.0.fine {
+                self.0.fine_points.fetch_add(1, std::sync::atomic::Ordering::Relaxed);
+                self.0.park(tid, Th::Ready);
+            }
+            fire
         }
         fn fault_point(&self, site: &'static str, path: &std::path::Path) -> Option<std::io::Error> {
             let tid = Sched::me()?;
@@ -655,6 +681,8 @@ mod sim {
                         nth: f["nth"].as_u64().unwrap_or(0),
                         seen: 0,
                         fired: false,
+                        thread: f["thread"].as_u64().unwrap_or(0) as usize,
+                        call: f["call"].as_u64().unwrap_or(0) as usize,
                     })
                     .collect()
             })
@@ -691,6 +719,7 @@ mod sim {
             cv: Condvar::new(),
             fine: plan["schedule"]["fine"].as_bool().unwrap_or(false),
             fine_points: std::sync::atomic::AtomicU64::new(0),
+            has_panics: plan["faults"].as_array().map(|a| a.iter().any(|f| f["site"] == "panic")).unwrap_or(false),
         });
         assert!(verif_hooks::register(Box::new(Hook(sched.clone()))));
 
